@@ -291,7 +291,8 @@ pub fn gen_key(rng: &mut Rng, reserved_pct: u64) -> Vec<u8> {
     if rng.chance(reserved_pct, 100) {
         rng.pick(&RESERVED_KEYS).to_vec()
     } else if rng.chance(1, 12) {
-        vec![b'k'; 40]
+        // long keys: 40 bytes (short header) and 60 bytes (two-byte header)
+        vec![b'k'; if rng.chance(1, 2) { 40 } else { 60 }]
     } else {
         rng.pick(&CUSTOM_KEYS).to_vec()
     }
@@ -356,6 +357,36 @@ pub fn gen_conforming(rng: &mut Rng, key: &[u8]) -> Option<Val> {
         b"secp256k1" | b"ed25519" | b"vs" => return None,
         _ => gen_val(rng),
     })
+}
+
+/// a value for a public-key entry: mostly a VALID key of that scheme (somebody else's), else junk
+pub fn gen_pk_value(rng: &mut Rng, key: &[u8]) -> Val {
+    let idx = 16 + rng.below(8) as u32;
+    if rng.chance(3, 4) {
+        match key {
+            b"secp256k1" => return Val::Bytes(crate::byz::ref_pk(PkKind::Secp, idx)),
+            b"ed25519" => return Val::Bytes(crate::byz::ref_pk(PkKind::Ed, idx)),
+            b"vs" => return Val::Bytes(crate::byz::ref_pk(PkKind::Var, idx)),
+            _ => {}
+        }
+    }
+    Val::Bytes(rng.bytes(*rng.clone().pick(&[8usize, 32, 33, 65])))
+}
+
+fn variant_of(rng: &mut Rng, c: &BCall) -> BCall {
+    match c {
+        BCall::Seq(s) => BCall::Seq(s ^ 1),
+        BCall::AddValue { key, .. } => BCall::AddValue { key: key.clone(), val: gen_conforming(rng, key).unwrap_or(Val::U16(7)) },
+        BCall::AddValueRlp { key, .. } => BCall::AddValueRlp { key: key.clone(), raw: gen_conforming(rng, key).unwrap_or(Val::U16(7)).ref_rlp() },
+        BCall::Ip(ip) => BCall::Ip(gen_ip(rng, ip.is_v4())),
+        BCall::Ip4(_) => match gen_ip(rng, true) { IpArg::V4(a) => BCall::Ip4(a), IpArg::V6(_) => unreachable!() },
+        BCall::Ip6(_) => match gen_ip(rng, false) { IpArg::V6(a) => BCall::Ip6(a), IpArg::V4(_) => unreachable!() },
+        BCall::Tcp4(p) => BCall::Tcp4(p ^ 0x0101),
+        BCall::Tcp6(p) => BCall::Tcp6(p ^ 0x0101),
+        BCall::Udp4(p) => BCall::Udp4(p ^ 0x0101),
+        BCall::Udp6(p) => BCall::Udp6(p ^ 0x0101),
+        BCall::ClientInfo { name, .. } => BCall::ClientInfo { name: format!("{name}2"), version: "9".into(), build: None },
+    }
 }
 
 /// malformed raw RLP: what a careless caller hands to the raw entry points
@@ -473,7 +504,7 @@ pub fn gen_op(rng: &mut Rng, w: &World, node: usize, p: &Profile) -> Op {
         0 | 1 => Op::SetSeq(gen_seq(rng)),
         2 | 3 | 4 => {
             let key = gen_key(rng, if bad { 60 } else { 25 });
-            let val = if bad { gen_val(rng) } else { gen_conforming(rng, &key).unwrap_or_else(|| Val::Bytes(rng.bytes(33))) };
+            let val = if bad { gen_val(rng) } else { gen_conforming(rng, &key).unwrap_or_else(|| gen_pk_value(rng, &key)) };
             Op::Insert { key, val }
         }
         5 | 6 => {
@@ -481,7 +512,7 @@ pub fn gen_op(rng: &mut Rng, w: &World, node: usize, p: &Profile) -> Op {
             let raw = if bad && rng.chance(2, 3) {
                 gen_bad_raw(rng)
             } else {
-                gen_conforming(rng, &key).unwrap_or_else(|| Val::Bytes(rng.bytes(33))).ref_rlp()
+                gen_conforming(rng, &key).unwrap_or_else(|| gen_pk_value(rng, &key)).ref_rlp()
             };
             Op::InsertRaw { key, raw }
         }
@@ -598,11 +629,21 @@ pub fn gen_build(rng: &mut Rng, p: &Profile) -> Vec<BCall> {
         let n = rng.range(60, 175) as usize;
         calls.push(BCall::AddValue { key: b"zzpad".to_vec(), val: Val::Bytes(vec![0xaa; n]) });
     }
-    // occasionally shuffle so that "last write wins" is exercised
-    if rng.chance(1, 5) && calls.len() > 1 {
+    // "last write wins": an earlier call for the same key with another value
+    if rng.chance(1, 4) && !calls.is_empty() {
         let i = rng.usize_below(calls.len());
-        let c = calls[i].clone();
-        calls.push(c);
+        let v = variant_of(rng, &calls[i]);
+        calls.insert(i, v);
+    }
+    // somebody else's (valid) public key handed to the builder: it must end up with the signer's
+    if rng.chance(1, 12) {
+        let key: &[u8] = *rng.pick(&[b"secp256k1".as_slice(), b"ed25519", b"vs"]);
+        let val = gen_pk_value(rng, key);
+        if rng.chance(1, 2) {
+            calls.push(BCall::AddValue { key: key.to_vec(), val });
+        } else {
+            calls.push(BCall::AddValueRlp { key: key.to_vec(), raw: val.ref_rlp() });
+        }
     }
     calls
 }
@@ -710,7 +751,8 @@ pub fn gen_content(rng: &mut Rng, honest: bool, kinds: &[PkKind]) -> Content {
 
 pub fn gen_rule(rng: &mut Rng) -> Rule {
     let i = rng.byte();
-    match rng.below(48) {
+    match rng.below(50) {
+        48 | 49 => Rule::EdSmallOrder,
         46 => Rule::PkUncompressed,
         47 => Rule::InnerNonCanonList,
         0 | 1 => Rule::SwapPairs(i),
@@ -761,7 +803,9 @@ pub fn gen_rule(rng: &mut Rng) -> Rule {
 }
 
 pub fn gen_tamper(rng: &mut Rng, w: &World) -> Tamper {
-    match rng.below(17) {
+    match rng.below(20) {
+        17 => Tamper::SigDer,
+        18 | 19 => Tamper::ShadowPair(rng.byte()),
         0 => Tamper::SeqTo(gen_seq(rng)),
         1 => Tamper::KeyRename(rng.byte()),
         2 | 3 => Tamper::ValueFlip(rng.byte()),
@@ -865,7 +909,7 @@ pub fn gen_event(rng: &mut Rng, w: &World, p: &Profile, st: &mut GenState) -> Ev
     // nodes without a record build one first
     for i in 0..w.nodes.len() {
         if !w.nodes[i].has_record() && !w.crashed[i] && rng.chance(3, 4) {
-            return Event::Build { node: i as u8, slot: 0, calls: gen_build(rng, p) };
+            return Event::Build { node: i as u8, slot: 0, calls: gen_build(rng, p), reuse: None };
         }
     }
     let has_var = w.nodes.iter().any(|n| n.backend() == Backend::Var);
@@ -930,7 +974,7 @@ pub fn gen_event(rng: &mut Rng, w: &World, p: &Profile, st: &mut GenState) -> Ev
             }
             Event::Op { node, slot: pick_slot(rng, p), op: gen_op(rng, w, n, p) }
         }
-        1 => Event::Build { node: pick_node(rng, w), slot: pick_slot(rng, p), calls: gen_build(rng, p) },
+        1 => Event::Build { node: pick_node(rng, w), slot: pick_slot(rng, p), calls: gen_build(rng, p), reuse: if rng.chance(1, 5) { Some(rng.below(2) as u8) } else { None } },
         2 => Event::ArmSigner { node: pick_node(rng, w), slot: 0, nth: rng.range(1, 3) },
         3 => {
             let vars: Vec<usize> = w.nodes.iter().enumerate().filter(|(_, n)| n.backend() == Backend::Var).map(|(i, _)| i).collect();
@@ -943,7 +987,9 @@ pub fn gen_event(rng: &mut Rng, w: &World, p: &Profile, st: &mut GenState) -> Ev
         8 => Event::Fault { msg: if rng.chance(3, 4) { pristine_msg(rng) } else { recent_msg(rng) }, fault: gen_netfault(rng), deliver: rng.chance(9, 10) },
         9 => {
             // text faults need a text message: pick one if there is any
-            let cands: Vec<usize> = w.msgs.iter().enumerate().filter(|(_, m)| m.form != Form::Binary && (m.how == "honest" || m.how == "foreign")).map(|(i, _)| i).collect();
+            // mostly pristine text; one time in four a text that already carries a text fault (faults stack)
+            let stack = rng.chance(1, 4);
+            let cands: Vec<usize> = w.msgs.iter().enumerate().filter(|(_, m)| m.form != Form::Binary && (m.how == "honest" || m.how == "foreign" || (stack && m.how.starts_with("fault:Txt")))).map(|(i, _)| i).collect();
             if cands.is_empty() {
                 Event::Publish { node: pick_node(rng, w), form: if rng.chance(2, 3) { Form::Text } else { Form::Json }, deliver: true }
             } else {
